@@ -545,8 +545,47 @@ func (c *Ctx) losslessPublication() {
 		}
 		c.check(okR && nCall == 1, R, "Run hands every received head update to notifySubscribers unmerged", g.Pos(), "one receive, passed on as received", fmt.Sprintf("ConnPool.Run receives from masterHeadUpdatedCh at %d site(s) and passes a merged/selected value on: an update of the best connection can be replaced by a later one of another connection, which notifySubscribers ignores, and the waiter is never woken", nRecv))
 	}
+	// the decision "is this head newer" and the store are one critical section: the comparison reads
+	// masterHead under the write lock that is still held at the store (two concurrent reports may not
+	// both pass the test and then store in the wrong order: the head would move backwards)
+	{
+		la := c.newLockAnalysis("liteapi/pool")
+		atomic := true
+		nLoads := 0
+		var stores []*ssa.Store
+		stores = fieldStores(f, "masterHead")
+		allInstrs(f, func(b *ssa.BasicBlock, in ssa.Instruction) {
+			u, ok := in.(*ssa.UnOp)
+			if !ok || u.Op != token.MUL {
+				return
+			}
+			// a load of c.masterHead.Seqno (or c.masterHead)
+			ls := strings.Join(leaves(u), ",")
+			if !strings.HasPrefix(ls, "#0.masterHead") || strings.HasPrefix(ls, "#0.masterHeadUpdatedCh") {
+				return
+			}
+			nLoads++
+			if la.at(u)["pool.connection.mu"] != 'W' {
+				atomic = false
+			}
+		})
+		for _, st := range stores {
+			if la.at(st)["pool.connection.mu"] != 'W' {
+				atomic = false
+			}
+		}
+		// one Lock only: check and store in the same acquisition
+		nLock := 0
+		for _, ci := range callsIn(f) {
+			q := callQName(ci.Common())
+			if q == "sync.RWMutex.Lock" || q == "sync.Mutex.Lock" || q == "sync.RWMutex.RLock" {
+				nLock++
+			}
+		}
+		c.check(atomic && nLoads >= 1 && len(stores) == 1 && nLock == 1, R, "SetMasterHead compares and stores the head in one critical section", f.Pos(), "Lock; if newer { store }; Unlock", fmt.Sprintf("SetMasterHead reads the current head for its 'newer?' test outside the write-locked section that stores the new head (loads under W: %v, lock acquisitions: %d): two concurrent reports can both pass the test and the older one be stored last, so a connection's head moves backwards and a waiter for a seqno already reported times out", atomic, nLock))
+	}
 	c.check(okv, R, "SetMasterHead publishes every accepted head with a blocking send", f.Pos(), "one send of {Head: head, Conn: c} under the same condition as the store", fmt.Sprintf("SetMasterHead no longer hands every accepted head to the pool (blocking sends: %d, non-blocking sends that drop when the channel is full: %d): a waiter for that seqno is not woken although the best connection reported it in time", len(sends), nonBlocking))
-	c.floor(R, 2)
+	c.floor(R, 3)
 }
 
 func valueOf(in ssa.Instruction) ssa.Value {
